@@ -69,7 +69,7 @@ def floors(tier):
          "dt_not_dividing": 10 * k, "yield_initial_checked": 3 * k, "H:list": 5 * k, "H:single": 5 * k,
          "u:real-time": 20 * k, "u:imaginary-time": 5 * k, "u:complex": 5 * k, "order_tests": 2 * k,
          "order_ratios_judged": 2 * k, "order_ratios_judged:2nd": 2 * k, "order_ratios_judged:4th": 2 * k,
-         "timedep:callable-returns-list": 2 * k, "timedep:callable-returns-mpo": 2 * k,
+         "timedep:callable-returns-list": 2 * k, "timedep:callable-returns-mpo": 2 * k, "timedep:uneven_dt_pairs": 3 * k,
          "fermionic_cases": 10 * k, "bond_growth_runs": 3 * k,
          "omitted:all": 4 * k, "omitted:none": 20 * k, "omitted:times": k, "omitted:dt": k,
          "H_special:zero": k, "H_special:identity": k, "H_special:scaled": 3 * k, "start:scaled": 10 * k,
@@ -763,6 +763,42 @@ def run_timedep(ctx, idx, cs, sym, groups, order):
         if r["final"] is None or any(f[0] == "__stalled__" for f in r["failed"]):
             return
         errs.append(T.rel_diff(r["final"], ref))
+    # ---- a dt that does not divide the interval is adjusted down to ds = T / ceil(T / dt): the run must coincide with the run
+    # that asks for ds directly - same sampling times of the generator, same final state (seeded C10_A3: midpoint taken of
+    # the requested dt, not of the adjusted step)
+    m = rng.choice((2, 3))
+    frac = rng.uniform(0.3, 0.7)
+    pre = rng.random() < 0.5
+    finals, sampled = [], []
+    for lab, dt_req in (("uneven", Ttot / (m - frac)), ("even", Ttot / m * (1 + 1e-9))):
+        seen = []
+
+        def Hrec(t, seen=seen):
+            seen.append(float(t))
+            return Hcall(t)
+        run = {"times": (t0, t0 + Ttot), "times_arg": (t0, t0 + Ttot), "dt": dt_req, "u": u, "ukind": ukind,
+               "method": method, "order": order, "opts_expmv": {"hermitian": True, "tol": 1e-13}, "opts_svd": opts_svd,
+               "normalize": normalize, "subtract_E": False, "precompute": pre, "yield_initial": False,
+               "counts": counts, "conserving": False, "start_noncanonical": False}
+        r = run_tdvp(ctx, psi0.shallow_copy(), Hrec, sec, run, f"timedep {lab} dt", dict(witness, dt_kind=lab, m=m, frac=frac), True, ref0, Hfun=Hfun)
+        for key, what, w in r["failed"]:
+            if key != "__stalled__":
+                ctx.violation(key, what, w)
+        if r["final"] is None or any(f[0] == "__stalled__" for f in r["failed"]):
+            return
+        finals.append(r["final"])
+        sampled.append(seen)
+    ctx.count("timedep:uneven_dt_pairs")
+    ctx.count("timedep:generator_samples_recorded", len(sampled[0]) + len(sampled[1]))
+    wu = dict(witness, m=m, frac=frac, sampled_uneven=sampled[0][:12], sampled_even=sampled[1][:12])
+    tsc = abs(t0) + Ttot
+    if len(sampled[0]) != len(sampled[1]) or any(abs(a - b) > 1e-7 * tsc for a, b in zip(*sampled)):
+        ctx.violation("timedep:sampling-depends-on-requested-dt", f"time-dependent generator, {method}, order {order}: with dt = T/{m - frac:.3f} "
+                      f"(adjusted to T/{m}) the generator is sampled at {sampled[0][:6]}..., with dt = T/{m} at {sampled[1][:6]}...", wu)
+    dev = T.rel_diff(finals[0], finals[1])
+    if not ctx.margin("timedep:uneven-vs-even-dt", dev, 1e-8):
+        ctx.violation("timedep:state-depends-on-requested-dt", f"time-dependent generator, {method}, order {order}: the final state with "
+                      f"dt = T/{m - frac:.3f} (adjusted to T/{m}) differs from the one with dt = T/{m} by {dev:.3e}", wu)
     sig = (sym, sp.family, sp.fermionic, sp.phys.sectors, N, n, "timedep", shape, as_list, ukind, method, order, normalize)
     ctx.case(sig, True, dict(witness, errors=errs))
     witness["errors"] = errs
